@@ -194,7 +194,11 @@ OPS = {
     # a parameter named like one of the expression library's built-in constants cannot be bound
     "form-reserved-parameter": [M("pair", lambda s: (rename(s, "Potential-Form", "f(r,a)", "f(r,epsilon)"), setv(s, "Potential-Form", "f(r,epsilon)", "epsilon*r + 1"))),
                                 M("pair", lambda s: (rename(s, "Potential-Form", "f(r,a)", "f(r,pi)"), setv(s, "Potential-Form", "f(r,pi)", "pi*r + 1"))),
-                                M("eam", lambda s: (rename(s, "Potential-Form", "f(r,a)", "f(r,inf)"), setv(s, "Potential-Form", "f(r,inf)", "inf*r + 1")))],
+                                M("eam", lambda s: (rename(s, "Potential-Form", "f(r,a)", "f(r,inf)"), setv(s, "Potential-Form", "f(r,inf)", "inf*r + 1"))),
+                                # ... or like one of its keywords, in whatever case (the library's own check knows the lower-case spelling only)
+                                M("pair", lambda s: (rename(s, "Potential-Form", "f(r,a)", "f(r,True)"), setv(s, "Potential-Form", "f(r,True)", "True*r + 1"))),
+                                M("pair", lambda s: (rename(s, "Potential-Form", "f(r,a)", "f(r,NULL)"), setv(s, "Potential-Form", "f(r,NULL)", "NULL*r + 1"))),
+                                M("eam", lambda s: (rename(s, "Potential-Form", "f(r,a)", "f(r,False)"), setv(s, "Potential-Form", "f(r,False)", "False*r + 1")))],
     # the expression library's symbols are case-insensitive: two parameters that differ only in case cannot both be bound
     "form-parameters-differ-in-case": [M("pair", lambda s: (rename(s, "Potential-Form", "g(r, a, b)", "g(r, a, A)"), setv(s, "Potential-Form", "g(r, a, A)", "f(r, a) * A + pymath.sqrt(r)"))),
                                        M("eam", lambda s: (rename(s, "Potential-Form", "f(r,a)", "f(r,R)"), setv(s, "Potential-Form", "f(r,R)", "R*r + 1")))],
